@@ -23,7 +23,8 @@
    element through its own pointer, so two slots holding the same leaf are separate objects).
 
    Cases.  One behaviour per case: Init chooses (n, m) -- a forest of n leaves and a
-   multiplicity 0..2 for every leaf (2 = the same leaf referenced twice) --, Layout turns it
+   multiplicity 0..2 for every leaf (2 = the same leaf referenced twice; at most MaxDup
+   leaves twice) --, Layout turns it
    into a transaction set (kinds by leaf type, duplicates spread over transactions, ephemeral
    parents mixed in), Eval computes everything once and prints the case for the harness.     *)
 EXTENDS Integers, Sequences, FiniteSets, TLC, Json
@@ -75,7 +76,7 @@ Visited(I) == VisitedFrom(I, 1)
 RECURSIVE InsertSorted(_, _, _)
 InsertSorted(ls, s, I) ==
   IF ls = <<>> THEN <<s>>
-  ELSE IF I[s] < I[Head(ls)] THEN <<s>> \o ls
+  ELSE IF I[s] <= I[Head(ls)] THEN <<s>> \o ls
   ELSE <<Head(ls)>> \o InsertSorted(Tail(ls), s, I)
 RECURSIVE SortFrom(_, _, _)
 SortFrom(ls, k, I) == IF k > Len(ls) THEN <<>> ELSE InsertSorted(SortFrom(ls, k + 1, I), ls[k], I)
@@ -237,10 +238,10 @@ vars == <<plan, out>>
 NoOut == [ph |-> 0]
 
 Init ==
-  /\ \E n \in MinN..MaxN : \E m \in [1..n -> 0..2] :
-        /\ \E i \in 1..n : m[i] > 0
-        /\ Cardinality({i \in 1..n : m[i] = 2}) <= MaxDup
-        /\ plan = [ph |-> 0, n |-> n, m |-> m]
+  /\ \E n \in MinN..MaxN : \E S \in SUBSET (1..n) : \E D \in (IF MaxDup = 0 THEN {{}} ELSE SUBSET S) :
+        /\ S # {}
+        /\ Cardinality(D) <= MaxDup
+        /\ plan = [ph |-> 0, n |-> n, m |-> [i \in 1..n |-> IF i \in D THEN 2 ELSE IF i \in S THEN 1 ELSE 0]]
   /\ out = NoOut
 
 First(n, m) == \A i \in 1..n : m[i] = (IF i = 1 THEN 1 ELSE 0)
